@@ -4,30 +4,47 @@
 #![allow(unused_imports)]
 #![allow(clippy::all)]
 
+#[cfg(not(feature = "driver_only"))]
 #[path = "/repo/src/chess/mod.rs"]
 pub mod chess;
+#[cfg(not(feature = "driver_only"))]
 #[path = "/repo/src/constants.rs"]
 pub mod constants;
+#[cfg(not(feature = "driver_only"))]
 #[path = "/repo/src/search.rs"]
 pub mod search;
+#[cfg(not(feature = "driver_only"))]
 #[path = "/repo/src/verif_hooks.rs"]
 pub mod verif_hooks;
+#[cfg(not(feature = "driver_only"))]
 #[path = "/repo/src/chess/scores.rs"]
 pub mod scores_data;
+#[cfg(not(feature = "driver_only"))]
 #[path = "/repo/src/autoplay.rs"]
 pub mod autoplay;
 
+#[cfg(not(feature = "driver_only"))]
 mod eng;
 mod evid;
+mod fenmut;
 mod gen;
-mod m_rules;
+#[cfg(not(feature = "driver_only"))]
 mod m_mem;
+mod m_membin;
+#[cfg(not(feature = "driver_only"))]
+mod m_rules;
+#[cfg(not(feature = "driver_only"))]
 mod m_search;
+#[cfg(not(feature = "driver_only"))]
 mod m_text;
+mod m_textcmd;
 mod m_uci;
+#[cfg(not(feature = "driver_only"))]
 mod m_undo;
 mod par;
+mod pgn;
 mod rng;
+mod roots;
 mod sess;
 mod uci;
 
@@ -41,6 +58,7 @@ fn usage() -> ! {
 const WALK: &[&str] = &["C01", "C02", "C04", "C05", "C11", "C16"];
 
 /// Run a second group of workers (UCI-level part of a property) and fold it into the first.
+#[cfg(not(feature = "driver_only"))]
 fn with_part(mut chk: evid::Check, mut agg: par::Agg, mode: &str, tier: &str, seed: u64, needs: &[(&str, &str, u64)]) -> i32 {
     let nshards = 16usize.max(par::ncores());
     let wd = std::time::Duration::from_secs(if tier == "thorough" { 10800 } else { 1500 });
@@ -54,6 +72,7 @@ fn with_part(mut chk: evid::Check, mut agg: par::Agg, mode: &str, tier: &str, se
     evid::finalize(chk, &agg)
 }
 
+#[cfg(not(feature = "driver_only"))]
 fn run(prop: &str, tier: &str, seed: u64) -> i32 {
     match prop {
         p if WALK.contains(&p) => m_rules::run(p, tier, seed),
@@ -102,6 +121,7 @@ fn run(prop: &str, tier: &str, seed: u64) -> i32 {
     }
 }
 
+#[cfg(not(feature = "driver_only"))]
 fn worker(mode: &str, shard: usize, nshards: usize, seed: u64, tier: &str, out: &mut par::Out, _extra: &[String]) {
     match mode {
         p if WALK.contains(&p) || p == "C12" || p == "C20" => m_rules::worker(p, shard, nshards, seed, tier, out),
@@ -116,9 +136,9 @@ fn worker(mode: &str, shard: usize, nshards: usize, seed: u64, tier: &str, out: 
         "C20show" => m_uci::worker_c20show(shard, nshards, seed, tier, out),
         "C13" => m_uci::worker_c13(shard, nshards, seed, tier, out),
         "C15" => m_mem::worker(shard, nshards, seed, tier, out),
-        "C15bin" => m_mem::worker_bin(shard, nshards, seed, tier, out),
+        "C15bin" => m_membin::worker_bin(shard, nshards, seed, tier, out),
         "C17" => m_text::worker(shard, nshards, seed, tier, out),
-        "C17cmd" => m_text::worker_cmd(shard, nshards, seed, tier, out),
+        "C17cmd" => m_textcmd::worker_cmd(shard, nshards, seed, tier, out),
         "C14" => m_uci::worker_c14(shard, nshards, seed, tier, out),
         "C19" => m_uci::worker_c19(shard, nshards, seed, tier, out),
         "replay" => {
@@ -134,6 +154,7 @@ fn worker(mode: &str, shard: usize, nshards: usize, seed: u64, tier: &str, out: 
     }
 }
 
+#[cfg(not(feature = "driver_only"))]
 fn replay(prop: &str, case: &Value, out: &mut par::Out) {
     let kind = case["kind"].as_str().unwrap_or("");
     match (prop, kind) {
@@ -152,6 +173,81 @@ fn replay(prop: &str, case: &Value, out: &mut par::Out) {
         ("C09", _) => m_search::replay_c09(case, out),
         ("C10", _) => m_search::replay_c10(case, out),
         _ => println!("no replay routine for {prop}"),
+    }
+}
+
+// ------------------------------------------------------------------------------------------
+// driver-only build: the engine sources did not compile into the harness (e.g. a function the
+// harness calls changed its signature) but the engine binary builds. The binary-level monitors
+// still run; a property whose in-process part could not run is never reported as "held".
+
+#[cfg(feature = "driver_only")]
+fn run(prop: &str, tier: &str, seed: u64) -> i32 {
+    let why = "the engine sources no longer compile into the harness (see .build/build-harness-release.log); only the binary-level part of this check could run";
+    let partial = |mode: &str, level: &'static str| -> i32 {
+        let nshards = 16usize.max(par::ncores());
+        let wd = std::time::Duration::from_secs(if tier == "thorough" { 10800 } else { 1500 });
+        let mut agg = par::run_workers(mode, tier, seed, nshards, &[], wd, None, &[]);
+        let mut chk = evid::Check::new(prop, tier, seed, level);
+        chk.evaluations = agg.ctr.values().copied().max().unwrap_or(0);
+        chk.distinct_nontrivial = chk.evaluations;
+        chk.rule = format!("DRIVER-ONLY RUN: {why}. Worker group `{mode}` against the real binary.");
+        agg.inconclusive.push(why.to_string());
+        evid::finalize(chk, &agg)
+    };
+    match prop {
+        "C13" => m_uci::run_c13(tier, seed),
+        "C14" => m_uci::run_c14(tier, seed),
+        "C19" => {
+            let (chk, agg) = m_uci::run_c19(tier, seed);
+            evid::finalize(chk, &agg)
+        }
+        "C12" => partial("C12cmd", "exploration"),
+        "C20" => partial("C20show", "exploration"),
+        "C17" => partial("C17cmd", "exploration"),
+        "C15" => partial("C15bin", "exploration"),
+        "C06" | "C07" | "C10" | "C18" => partial(&format!("{prop}uci"), "exploration"),
+        _ => {
+            println!("INCONCLUSIVE property={prop} reason={why}");
+            2
+        }
+    }
+}
+
+#[cfg(feature = "driver_only")]
+fn worker(mode: &str, shard: usize, nshards: usize, seed: u64, tier: &str, out: &mut par::Out, _extra: &[String]) {
+    match mode {
+        "C06uci" | "C07uci" | "C10uci" | "C18uci" => m_uci::worker_ucisample(&mode[..3], shard, nshards, seed, tier, out),
+        "C12cmd" => m_uci::worker_c12cmd(shard, nshards, seed, tier, out),
+        "C20show" => m_uci::worker_c20show(shard, nshards, seed, tier, out),
+        "C13" => m_uci::worker_c13(shard, nshards, seed, tier, out),
+        "C14" => m_uci::worker_c14(shard, nshards, seed, tier, out),
+        "C19" => m_uci::worker_c19(shard, nshards, seed, tier, out),
+        "C15bin" => m_membin::worker_bin(shard, nshards, seed, tier, out),
+        "C17cmd" => m_textcmd::worker_cmd(shard, nshards, seed, tier, out),
+        "replay" => {
+            let text = std::fs::read_to_string(&_extra[0]).expect("read replay file");
+            let v: Value = serde_json::from_str(&text).expect("replay json");
+            let prop = v["property"].as_str().unwrap_or("").to_string();
+            let case = if v["case"]["crash"] == true { v["case"]["case"].clone() } else { v["case"].clone() };
+            out.begin(&case);
+            replay(&prop, &case, out);
+            out.end();
+        }
+        _ => usage(),
+    }
+}
+
+#[cfg(feature = "driver_only")]
+fn replay(prop: &str, case: &Value, out: &mut par::Out) {
+    let kind = case["kind"].as_str().unwrap_or("");
+    match (prop, kind) {
+        ("C12", "position-moves") => m_uci::replay_c12cmd(case, out),
+        ("C14", _) => m_uci::replay_session(prop, case, out),
+        ("C13", _) => m_uci::replay_c13(case, out),
+        ("C19", _) => m_uci::replay_c19(case, out),
+        ("C06" | "C07" | "C10" | "C18", "session") => m_uci::replay_ucisample(prop, case, out),
+        _ => println!("this witness needs the in-process harness, which does not build against the current engine sources"),
     }
 }
 
@@ -175,12 +271,14 @@ fn main() {
                 }
             }
         }
+        #[cfg(not(feature = "driver_only"))]
         "miri" => {
             // small workload for the undefined-behaviour interpreter (no file access)
             let shard: u64 = args.get(2).and_then(|s| s.parse().ok()).unwrap_or(0);
             let ops = m_mem::miri_workload(shard);
             println!("MIRI-OPS {ops}");
         }
+        #[cfg(not(feature = "driver_only"))]
         "dbg-hist" => {
             // debugging aid: replay a history witness, then show the table's view of the last root
             let text = std::fs::read_to_string(&args[2]).expect("read");
